@@ -80,9 +80,11 @@ class Path:
         self.end = None
         self.env = {}
         self.heap = {}
+        self.loopdepth = 0
 
     def clone(self):
         p = Path()
+        p.loopdepth = self.loopdepth
         p.guards = list(self.guards)
         p.effects = list(self.effects)
         p.end = self.end
@@ -253,8 +255,37 @@ class Walker:
         st.env[s.name] = ast.Name(id='<class %s@%d>' % (s.name, s.lineno), ctx=ast.Load())
         return [(st, None)]
 
+    def _local_list_mutation(self, call, st, d):
+        """``xs.append(v)`` / ``xs.insert(0, v)`` / ``xs.extend([..])`` on a local that still holds the
+        list display it was created with: the display is updated (the call effect is recorded too)"""
+        f = call.func
+        if not (isinstance(f, ast.Attribute) and isinstance(f.value, ast.Name) and f.attr in ('append', 'insert', 'extend')):
+            return
+        name = f.value.id
+        cur = st.env.get(name)
+        if not isinstance(cur, ast.List) or call.keywords or st.loopdepth:
+            return
+        args = [self._ev_symbolic(a, st, d) for a in call.args]
+        if any(a is None for a in args):
+            st.env[name] = ast.Name(id='%s@mutated%d' % (name, getattr(call, 'lineno', 0)), ctx=ast.Load())
+            return
+        # heap reads of the arguments (values stored on local objects) as the normal evaluation sees them
+        args = [self.ev(a, st.clone(), d) for a in call.args]
+        elts = list(cur.elts)
+        if f.attr == 'append' and len(args) == 1:
+            elts.append(args[0])
+        elif f.attr == 'insert' and len(args) == 2 and isinstance(args[0], ast.Constant) and isinstance(args[0].value, int) and 0 <= args[0].value <= len(elts):
+            elts.insert(args[0].value, args[1])
+        elif f.attr == 'extend' and len(args) == 1 and isinstance(args[0], (ast.List, ast.Tuple)):
+            elts.extend(args[0].elts)
+        else:
+            st.env[name] = ast.Name(id='%s@mutated%d' % (name, getattr(call, 'lineno', 0)), ctx=ast.Load())
+            return
+        st.env[name] = ast.List(elts=elts, ctx=ast.Load())
+
     def s_Expr(self, s, st, d):
         if isinstance(s.value, ast.Call):
+            new_env_for = s.value
             inl = self.try_inline_stmt(s.value, st, d)
             if inl is not None:
                 return [(p, None if status is None or status[0] in ('return', 'fall') else status)
@@ -263,7 +294,11 @@ class Walker:
             v = self.ev(s.value.value, st, d) if s.value.value is not None else None
             st.effects.append(Eff('yield', s, value=v, depth=d))
             return [(st, None)]
+        saved_env = st.env.get(s.value.func.value.id) if isinstance(s.value, ast.Call) and isinstance(s.value.func, ast.Attribute) and isinstance(s.value.func.value, ast.Name) else None
         self.ev(s.value, st, d)
+        if isinstance(s.value, ast.Call) and isinstance(saved_env, ast.List):
+            st.env[s.value.func.value.id] = saved_env
+            self._local_list_mutation(s.value, st, d)
         return [(st, None)]
 
     def s_Return(self, s, st, d):
@@ -465,6 +500,7 @@ class Walker:
         self.items[n] = itr
         entry = {a: st.env.get(a) for a in assigned}       # values of the carried names before the loop
         body_st = Path()
+        body_st.loopdepth = st.loopdepth + 1
         body_st.env = dict(st.env)
         body_st.guards = []
         for a in assigned:
